@@ -2,6 +2,7 @@
 // x-amz-* headers, canonicalized resource), the sub-resource list, and the Expires check of v2_check_presigned_url.
 #![allow(dead_code, unused)]
 #![feature(pattern)]
+#![feature(const_destruct)]
 use vstd::prelude::*;
 use vstd::std_specs::iter::IteratorSpec;
 use core::str::pattern::Pattern;
@@ -309,6 +310,90 @@ pub fn v2_amz_headers(ans0: String, headers: &OrderedHeaders<'_>) -> (ret: Strin
     ans
 }
 
+// ---- AuthorizationV2::parse and PresignedUrlV2::parse (sig_v2/authorization_v2.rs, presigned_url_v2.rs) ---------------------
+pub uninterp spec fn sp_strip_prefix<P>(s: Seq<char>, p: P) -> Option<Seq<char>>;
+pub uninterp spec fn sp_split_once<P>(s: Seq<char>, p: P) -> Option<(Seq<char>, Seq<char>)>;
+#[verifier::allow(undeclared_external_trait)]
+pub assume_specification<'a, P: Pattern>[ str::strip_prefix::<P> ](s: &'a str, p: P) -> (r: Option<&'a str>)
+    ensures r matches Some(t) ==> sp_strip_prefix(s@, p) == Some(t@), r is None ==> sp_strip_prefix(s@, p) is None;
+#[verifier::allow(undeclared_external_trait)]
+pub assume_specification<'a, P: Pattern>[ str::split_once::<P> ](s: &'a str, p: P) -> (r: Option<(&'a str, &'a str)>)
+    ensures r matches Some(t) ==> sp_split_once(s@, p) == Some((t.0@, t.1@)), r is None ==> sp_split_once(s@, p) is None;
+#[verifier::external_body]
+pub proof fn axiom_strip_prefix_str(s: Seq<char>, p: &str)
+    ensures sp_strip_prefix(s, p) == (if p@.is_prefix_of(s) { Some(s.skip(p@.len() as int)) } else { None::<Seq<char>> })
+{}
+/// index of the first occurrence of c in s, or s.len()
+pub open spec fn first_index(s: Seq<char>, c: char) -> int
+    decreases s.len()
+{
+    if s.len() == 0 { 0 } else if s[0] == c { 0 } else { 1 + first_index(s.skip(1), c) }
+}
+#[verifier::external_body]
+pub proof fn axiom_split_once_char(s: Seq<char>, c: char)
+    ensures sp_split_once(s, c) == (if first_index(s, c) < s.len() { Some((s.take(first_index(s, c)), s.skip(first_index(s, c) + 1))) } else { None::<(Seq<char>, Seq<char>)> })
+{}
+proof fn lemma_first_index(s: Seq<char>, c: char)
+    ensures 0 <= first_index(s, c) <= s.len(), forall|k: int| 0 <= k < first_index(s, c) ==> s[k] != c,
+        first_index(s, c) < s.len() ==> s[first_index(s, c)] == c
+    decreases s.len()
+{
+    if s.len() > 0 && s[0] != c {
+        lemma_first_index(s.skip(1), c);
+        assert forall|k: int| 0 <= k < first_index(s, c) implies s[k] != c by { if k > 0 { assert(s.skip(1)[k - 1] == s[k]); } }
+    }
+}
+//@@ extract T_AuthorizationV2 file=crates/s3s/src/sig_v2/authorization_v2.rs item="struct AuthorizationV2" rewrites=attr
+//@@ extract T_ParseAuthorizationV2Error file=crates/s3s/src/sig_v2/authorization_v2.rs item="struct ParseAuthorizationV2Error" rewrites=attr
+//@@ extract AuthorizationV2_parse file=crates/s3s/src/sig_v2/authorization_v2.rs item="impl<'a> AuthorizationV2<'a>/fn parse" rewrites=attr,ret wrap="impl<'a> AuthorizationV2<'a> {"
+
+#[verifier::external_trait_specification]
+pub trait ExFromStr: Sized {
+    type ExternalTraitSpecificationFor: core::str::FromStr;
+    type Err;
+    fn from_str(s: &str) -> Result<Self, Self::Err>;
+}
+/// `str::parse::<F>()`: F's FromStr decoder as a function of the text (uninterpreted)
+pub uninterp spec fn spec_from_str<F: core::str::FromStr>(s: Seq<char>) -> Result<F, F::Err>;
+pub assume_specification<F: core::str::FromStr>[ str::parse::<F> ](s: &str) -> (r: Result<F, F::Err>)
+    ensures r == spec_from_str::<F>(s@);
+#[verifier::external_type_specification]
+#[verifier::external_body]
+pub struct ExParseIntError(core::num::ParseIntError);
+#[verifier::allow(undeclared_external_trait)]
+pub assume_specification<T, P: FnOnce(&T) -> bool + core::marker::Destruct>[ Option::<T>::filter ](o: Option<T>, f: P) -> (r: Option<T>)
+    where T: core::marker::Destruct
+    requires o matches Some(t) ==> f.requires((&t,)),
+    ensures
+        o is None ==> r is None,
+        o matches Some(t) ==> (exists|b: bool| f.ensures((&t,), b) && r == (if b { Some(t) } else { None::<T> }));
+/// std::borrow::Cow<str>, viewed as its text
+pub struct Cow<'a, B: ?Sized + 'a> { pub r: &'a B }
+impl<'a> Cow<'a, str> { pub open spec fn view(&self) -> Seq<char> { self.r@ } }
+pub mod urlencoding {
+    use vstd::prelude::*;
+    pub struct FromUtf8Error { pub o: u64 }
+    /// percent-decoding of a query value (urlencoding crate: trusted)
+    pub uninterp spec fn spec_decode(s: Seq<char>) -> Option<Seq<char>>;
+    #[verifier::external_body]
+    pub fn decode<'a>(data: &'a str) -> (r: Result<super::Cow<'a, str>, FromUtf8Error>)
+        ensures (r matches Ok(c) ==> spec_decode(data@) == Some(c@)), (r is Err ==> spec_decode(data@) is None)
+    { unimplemented!() }
+}
+pub struct ComponentRange { pub o: u64 }
+impl time::OffsetDateTime {
+    /// seconds since the epoch -> instant (the time crate's range check: |instant| <= BOUND)
+    #[verifier::external_body]
+    pub fn from_unix_timestamp(ts: i64) -> (r: Result<time::OffsetDateTime, ComponentRange>)
+        ensures r matches Ok(t) ==> t.ns == ts * 1_000_000_000 && t.wf(),
+    { unimplemented!() }
+}
+use time::OffsetDateTime;
+//@@ extract T_PresignedUrlV2 file=crates/s3s/src/sig_v2/presigned_url_v2.rs item="struct PresignedUrlV2" rewrites=attr
+//@@ extract T_ParsePresignedUrlError file=crates/s3s/src/sig_v2/presigned_url_v2.rs item="struct ParsePresignedUrlError" rewrites=attr
+//@@ extract parse_unix_timestamp file=crates/s3s/src/sig_v2/presigned_url_v2.rs item="fn parse_unix_timestamp" rewrites=attr,ret,closurerefpat,closure:1:bool
+//@@ extract PresignedUrlV2_parse file=crates/s3s/src/sig_v2/presigned_url_v2.rs item="impl<'a> PresignedUrlV2<'a>/fn parse" rewrites=attr,ret,closurearg wrap="impl<'a> PresignedUrlV2<'a> {"
+
 //@@ gen spec_included
 //@@ extractall included
 
@@ -347,9 +432,9 @@ fn v2_resource(ans0: String, virtual_host_bucket: Option<&str>, uri_path: &str, 
 }
 
 /// the two fields of PresignedUrlV2 the Expires check reads
-pub struct PresignedUrlV2 { pub expires_time: time::OffsetDateTime }
+pub struct PresignedUrlV2Expiry { pub expires_time: time::OffsetDateTime }
 
-pub fn v2_expiry(now_param: time::OffsetDateTime, presigned_url: &PresignedUrlV2) -> (ret: S3Result<()>)
+pub fn v2_expiry(now_param: time::OffsetDateTime, presigned_url: &PresignedUrlV2Expiry) -> (ret: S3Result<()>)
     ensures
         //# C11:v2.presigned_only_until_expires
         now_param.ns > presigned_url.expires_time.ns ==> (ret matches Err(e) && e.code is AccessDenied),
